@@ -193,7 +193,7 @@ def rewrite_stream(chk, model, bres, tier):
                 b.handles[0][oi].cast_dtype = getattr(np, new_dt)
                 o2['cast_dtype'] = new_dt
             else:
-                key = o.get('dataset_name') or o['name']
+                key = b.handles[0][oi].dataset_name      # (explicit, or the name the library handed out)
                 vals = np.arange(o['data'].size).reshape(o['data'].shape) % 100
                 b.data[key] = vals.astype(new_dt)
                 o2['data'] = b.data[key]
